@@ -559,6 +559,12 @@ func effectiveMem(m *Mem, r *Term) *Mem {
 				m = m.prev
 				continue
 			}
+		case MMerge:
+			// branches that differ only in regions unrelated to r
+			if ea, eb := effectiveMem(m.a, r), effectiveMem(m.b, r); ea == eb && ea != nil {
+				m = ea
+				continue
+			}
 		}
 		if nr != nil && EqOff(nr, r) == False {
 			m = m.prev
